@@ -440,10 +440,15 @@ def run(ctx):
         extra.append((f"star-ring#{t}", zoo.star_ring(rng)))
         if t % 2 == 0:
             extra.append((f"comb-ring#{t}", zoo.comb_ring(rng)))
+    # plaquettes that are large compared with the cell (corners more than half a cell from the centroid): big rings, the library's concave example, sheared cells
+    for t in range(6 if quick else 40):
+        extra.append((f"big-ring#{t}", zoo.big_ring(rng)))
+    extra += [("concave", eg.concave_plaquette()), ("trinon2-sheared", zoo.sheared(eg.tri_non_lattice(2))), ("honey2-sheared", zoo.sheared(eg.honeycomb_lattice(2), 1)),
+              ("hso2-sheared", zoo.sheared(eg.hex_square_oct_lattice(2), 1))]
     for name, l in extra:
         l = zoo.rebuild(l)
         if np.any(np.abs(l.edges.vectors) >= 1):
-            continue
+            ctx.count("extra_lattices_excluded_edge_spanning_a_cell"); continue
         c = l.edges.crossing
         if np.any(c[:, 0] * c[:, 1] == -1): ctx.count("lattices_with_antidiagonal_corner_edges")
         if np.any(c[:, 0] * c[:, 1] == 1): ctx.count("lattices_with_diagonal_corner_edges")
@@ -476,6 +481,8 @@ def run(ctx):
                 ref.append((i, l.vertices.positions[p.vertices[0]] + np.cumsum(vec, 0)))
             ncell = sum(1 for i, pts in ref if (np.floor(pts.min(axis=0)) != np.floor(pts.max(axis=0))).all())
             if ncell: ctx.count("plaquettes_wrapping_round_a_cell_corner", ncell)
+            nbig = sum(1 for i, pts in ref if np.any(np.abs(pts - np.asarray(l.plaquettes[i].center)) > 0.5))
+            if nbig: ctx.count("plaquettes_with_a_corner_more_than_half_a_cell_from_the_centre", nbig)
             nmulti = 0
             for i, pts in ref:
                 q = np.vstack([pts, pts[:1]])
@@ -549,6 +556,19 @@ def run(ctx):
     # a few designed cases: touching at an end point, T-junctions, far apart, crossing at the middle
     special = [[[0, 0], [G, G], [0, G], [G, 0]], [[0, 0], [G, 0], [G // 2, 0], [G // 2, G]], [[0, 0], [G, 0], [0, 1], [G, 2]], [[0, 0], [G, G], [G, G], [2 * G, 0]],
                [[0, 0], [1, G], [2, 0], [3, G + 1]]]
+    # exactly vertical / horizontal segments, as first argument, as second, and as both (perpendicular)
+    axis = []
+    for t in range(40 if quick else 400):
+        x0, y0, y1 = int(rng.integers(-G, 2 * G)), int(rng.integers(-G, 2 * G)), int(rng.integers(-G, 2 * G))
+        if y0 == y1:
+            continue
+        vert = [[x0, y0], [x0, y1]]
+        other = rng.integers(-G, 2 * G, size=(2, 2)).tolist() if t % 3 else [[x0 - int(rng.integers(1, G)), (y0 + y1) // 2], [x0 + int(rng.integers(1, G)), (y0 + y1) // 2 + int(t % 2)]]
+        pair = [vert, other] if t % 2 else [other, vert]
+        if t % 5 == 0:                                               # the same with x and y exchanged: horizontal segments
+            pair = [[[p[1], p[0]] for p in seg] for seg in pair]
+        axis.append(pair[0] + pair[1])
+    special = special + axis
     allp = np.concatenate([np.array(special), pts])
     lines1 = allp[:, 0:2, :] / G; lines2 = allp[:, 2:4, :] / G
     got = [bool(pl.line_intersection(lines1[i:i + 1], lines2[i:i + 1])[0, 0]) for i in range(len(allp))]
